@@ -71,14 +71,16 @@ START_KINDS = ["bare", "bare-tuple", "empty-context", "context-tree", "untyped-v
 def rand_attrs(rng):
     out = {}
     for _ in range(rng.choice([0, 0, 1, 1, 2, 3])):
-        k = rng.choice(["latex_name", "unit", "range", "opts", "weight", "run", "fill"])
+        k = rng.choice(["latex_name", "unit", "range", "opts", "weight", "run", "fill", "cuts"])
         out[k] = {"run": rng.choice([1234, "2023a"]),      # attributes named like methods of
                   "fill": 7,                               # elements: still plain attributes
                   "latex_name": rng.choice(["x_1", "E^+", "\\\\phi"]),
                   "unit": rng.choice(["cm", "keV", "m"]),
                   "range": [rng.randint(-5, 0), rng.randint(1, 9)],
                   "opts": {"log": True, "bins": [1, 2, {"deep": rng.randint(0, 3)}]},
-                  "weight": rng.choice([0, 1.5, 2])}[k]
+                  "weight": rng.choice([0, 1.5, 2]),
+                  # a tuple holding mutable items (built from the recipe by build_var)
+                  "cuts": {"__tuple__": [[0, rng.randint(1, 9)], {"k": [1]}]}}[k]
     return out
 
 
@@ -127,6 +129,13 @@ def cases(tier, seed):
     for shape in DATA_SHAPES:
         for form in ("single", "compose", "sequence", "combine"):
             yield {"k": "shapes", "shape": shape, "form": form}
+    for exc in ("StopIteration", "KeyError", "IndexError"):
+        for form in ("combine", "compose", "combine-in-compose", "combine-in-combine"):
+            for n in (1, 2, 3):
+                for pos in range(n):
+                    for via in ("call", "sequence"):
+                        yield {"k": "getter_fails", "exc": exc, "form": form, "n": n, "pos": pos,
+                               "via": via, "ctx": (n + pos) % 2}
     for head in ("iter", "list"):
         for n in (2, 3):
             for shared in (1, 0):
@@ -208,6 +217,8 @@ def build_var(vr):
     k = vr[0]
     if k == "var":
         kw = dict(copy.deepcopy(vr[4]))
+        if isinstance(kw.get("cuts"), dict):
+            kw["cuts"] = tuple(kw["cuts"]["__tuple__"])
         if vr[3]:
             kw["type"] = vr[3]
         return lena.variables.Variable(vr[1], gen.DATA_FUNCS[vr[2]], **kw)
@@ -264,7 +275,7 @@ def leaves(vr):
     k = vr[0]
     if k == "var":
         own = {"name": vr[1]}
-        own.update(copy.deepcopy(vr[4]))
+        own.update(_attrs(vr[4]))
         return [(vr[1], vr[3], own)]
     if k == "compose":
         out = []
@@ -273,6 +284,13 @@ def leaves(vr):
         return out
     # a Combine is one application; its own description = what it puts under its type
     return [(combine_name(vr), vr[3], ("combine", len(vr[1])))]
+
+
+def _attrs(a):
+    a = copy.deepcopy(a)
+    if isinstance(a.get("cuts"), dict):
+        a["cuts"] = tuple(a["cuts"]["__tuple__"])
+    return a
 
 
 def combine_name(vr):
@@ -375,8 +393,25 @@ def apply_recorded(v, x, obs, what, invs):
         obs.check(gen.data_of(x) == in_data, "input-data-changed:" + what,
                   "%r changed the data of its argument from %r to %r"
                   % (v, in_data, gen.data_of(x)))
-    invs.append(res)
-    return res
+    # the context it produced holds copies of the variable's description: no dict / list of the
+    # variable (not even inside a tuple, like var_context["combine"]) is handed out
+    from rv.monitors import identity
+    own = {}
+    for w in vs:
+        identity.mutable_ids(w.var_context, into=own)
+    handed = [o for i, o in identity.mutable_ids(out_ctx).items() if i in own]
+    obs.count("identity_checks")
+    obs.check(not handed, "result-context-shares-object-with-variable:" + what,
+              "%r applied to %r: the yielded context %r holds the very object %r of the "
+              "variable's var_context" % (v, x, out_ctx, handed[:1]))
+    invs.append(copy.deepcopy(res))
+    # what a consumer may do with the yielded context: change it in place at every level
+    for o in list(identity.mutable_ids(out_ctx).values()):
+        if isinstance(o, dict):
+            o["__changed_downstream__"] = 1
+        elif isinstance(o, list):
+            o.append("__changed_downstream__")
+    return invs[-1]
 
 
 def check_types_model(obs, sr, chain, var_ctx, what, named):
@@ -422,7 +457,7 @@ def check_types_model(obs, sr, chain, var_ctx, what, named):
     last = chain[-1]
     if last[0] == "var":
         own = {"name": last[1]}
-        own.update(copy.deepcopy(last[4]))
+        own.update(_attrs(last[4]))
         if named:
             own.pop("name")     # judged by the separate name= oracle
         got = {k: var_ctx.get(k) for k in own}
@@ -802,6 +837,43 @@ def run_stateful(r, obs):
                                "iterator" if r["head"] == "iter" else "list", data, res[0], exp))
 
 
+def run_getter_fails(r, obs):
+    """A getter that raises (StopIteration: next() on an exhausted iterator) for the datum: the
+    application fails; Combine never returns a tuple shorter than its dim."""
+    import lena.core
+    import lena.variables
+    V = lena.variables.Variable
+    obs.nontrivial = True
+    exc = {"StopIteration": StopIteration, "KeyError": KeyError, "IndexError": IndexError}[r["exc"]]
+
+    def bad(d):
+        raise exc("no constant for %r" % (d,))
+    good = lambda d: d
+    vs = [V("v%d" % i, bad if i == r["pos"] else good, type="t%d" % i) for i in range(r["n"])]
+    if r["form"] == "combine":
+        var = lena.variables.Combine(*vs)
+    elif r["form"] == "combine-in-compose":
+        var = lena.variables.Compose(V("first", good, type="f"), lena.variables.Combine(*vs))
+    elif r["form"] == "combine-in-combine":
+        var = lena.variables.Combine(lena.variables.Combine(*vs), V("last", good, type="l"))
+    else:
+        var = lena.variables.Compose(*vs)
+    value = (3, {"i": 1}) if r["ctx"] else 3
+    try:
+        if r["via"] == "sequence":
+            res = list(lena.core.Sequence(var).run(iter([value])))
+            res = res[0] if len(res) == 1 else ("results", res)
+        else:
+            res = var(value)
+    except Exception:  # pylint: disable=broad-except
+        obs.count("getter_failures_propagated")
+        return
+    obs.count("getter_failures_swallowed")
+    obs.fail("getter-exception-swallowed:" + r["exc"],
+             "%s of %d variables, getter no. %d raises %s for the datum; applied %s it returned "
+             "%r instead of failing" % (r["form"], r["n"], r["pos"], r["exc"], r["via"], res))
+
+
 def run_case(r, obs):
     del CONSTRUCTION_CHANGES[:]
     try:
@@ -809,6 +881,8 @@ def run_case(r, obs):
             run_chain(r, obs)
         elif r["k"] == "shapes":
             run_shapes(r, obs)
+        elif r["k"] == "getter_fails":
+            run_getter_fails(r, obs)
         elif r["k"] == "stateful":
             run_stateful(r, obs)
         elif r["k"] == "reuse":
@@ -837,3 +911,7 @@ RULE += (' Added: values without context whose data is a list / deque / iterator
          '/ string (a 2-item list with a dict second among them) through Variable, Compose, '
          'Sequence and Combine; Combine of Compose variables that share their first variable '
          'object and whose getters return fresh iterators / lists consumed by the next getter.')
+RULE += (' Added: tuple-valued attributes holding lists / dicts; after every application the yielded '
+         'context is walked for objects of the variable (identity, into tuples) and then changed in '
+         'place at every level; getters that raise StopIteration / KeyError / IndexError for the '
+         'datum in Combine / Compose (the application must fail).')
